@@ -1573,7 +1573,10 @@ def gen_stash_become(seed, mode="loop"):
     sc.cb(S2, "evt", "*", [])
     sc.main += [("reg", T), ("reg", S2), ("start", T), ("start", S2)]
     tn, th, tl = sc.topic("beta"), sc.topic("gamma"), sc.topic("alpha")
-    sc.main += [("sub", T, tn, 0, sc.ud()), ("sub", T, th, SRC_HIGH, sc.ud()), ("sub", T, tl, SRC_LOW, sc.ud())]
+    # (a third of the targets give their normal-priority subscription an auto-free user pointer and later repeat the
+    # subscription with another one: events stashed before keep the pointer they were delivered with, valid)
+    nfl = SRC_AUTOFREE if r.random() < 0.33 else 0
+    sc.main += [("sub", T, tn, nfl, sc.ud()), ("sub", T, th, SRC_HIGH, sc.ud()), ("sub", T, tl, SRC_LOW, sc.ud())]
     sc.main += [("fd_open", 1, 0, 0), ("fd_reg", T, 1, 0, sc.ud())]
     sc.meta["max_ufd"] = 4
     nmax = [1, 2, 3, -1, 1, 2, 5, 64]
@@ -1620,10 +1623,12 @@ def gen_stash_become(seed, mode="loop"):
                 ops.append((r.choice(["pause", "resume"]), T))
             elif throttled and x < 0.94:
                 ops.append(("tb", T, r.choice([0, 1, 3]), r.choice([1, 2, 5])))
+            elif nfl and x < 0.945:
+                ops.append(("sub", T, tn, nfl, sc.ud()))
             elif x < 0.96:
                 ops += [("stop", T)]
             else:
-                ops += [("start", T), ("sub", T, tn, 0, sc.ud()), ("sub", T, th, SRC_HIGH, sc.ud()), ("fd_reg", T, 1, 0, sc.ud())]
+                ops += [("start", T), ("sub", T, tn, nfl, sc.ud()), ("sub", T, th, SRC_HIGH, sc.ud()), ("fd_reg", T, 1, 0, sc.ud())]
         steps.append(ops)
     steps += [[], [("unstash", T, -1)], []]
     driven_finish(sc, steps, rng=r)
